@@ -11,6 +11,7 @@ import (
 	"net/url"
 	"strconv"
 	"strings"
+	"sync"
 
 	"github.com/gorilla/securecookie"
 	"golang.org/x/oauth2"
@@ -22,6 +23,9 @@ import (
 	"verif/internal/keys"
 	"verif/internal/mon"
 )
+
+// reqHeader names the concurrent request a handler / monitor call belongs to (part C only).
+const reqHeader = "X-C17-Req"
 
 type kv struct {
 	K string `json:"k"`
@@ -54,13 +58,15 @@ type rpConfig struct {
 }
 
 type appCall struct {
+	Req       string `json:"req,omitempty"` // part C: which of the concurrent requests the call was made for
 	State     string `json:"state"`
 	Access    string `json:"access_token"`
 	HasClaims bool   `json:"has_id_token_claims"`
 }
 
 type hcall struct {
-	A string `json:"a"`
+	Req string `json:"req,omitempty"`
+	A   string `json:"a"`
 	B string `json:"b,omitempty"`
 	S string `json:"state"`
 }
@@ -74,6 +80,10 @@ type world struct {
 	blockKey []byte
 	ref      *securecookie.SecureCookie // same keys; used by the harness to learn what a cookie stores
 	next     []string                   // queue for the application's state function
+	mu       sync.Mutex                 // guards app / unauth / errh (part C calls the handlers concurrently)
+	cb       rp.CodeExchangeCallback[*oidc.IDTokenClaims]
+	authP    []rp.URLParamOpt
+	exchP    []rp.URLParamOpt
 	app      []appCall
 	unauth   []hcall
 	errh     []hcall
@@ -156,13 +166,17 @@ func newWorld(cfg rpConfig, hashKey, blockKey []byte, op *fakeOP) (w *world, err
 	}
 	if cfg.CustomUnauth {
 		opts = append(opts, rp.WithUnauthorizedHandler(func(rw http.ResponseWriter, r *http.Request, desc, state string) {
-			w.unauth = append(w.unauth, hcall{A: desc, S: state})
+			w.mu.Lock()
+			w.unauth = append(w.unauth, hcall{Req: r.Header.Get(reqHeader), A: desc, S: state})
+			w.mu.Unlock()
 			http.Error(rw, "custom unauthorized: "+desc, http.StatusForbidden)
 		}))
 	}
 	if cfg.CustomErr {
 		opts = append(opts, rp.WithErrorHandler(func(rw http.ResponseWriter, r *http.Request, typ, desc, state string) {
-			w.errh = append(w.errh, hcall{A: typ, B: desc, S: state})
+			w.mu.Lock()
+			w.errh = append(w.errh, hcall{Req: r.Header.Get(reqHeader), A: typ, B: desc, S: state})
+			w.mu.Unlock()
 			http.Error(rw, "custom error: "+typ, http.StatusBadGateway)
 		}))
 	}
@@ -195,17 +209,20 @@ func newWorld(cfg rpConfig, hashKey, blockKey []byte, op *fakeOP) (w *world, err
 		return s
 	}
 	cb := func(rw http.ResponseWriter, r *http.Request, tokens *oidc.Tokens[*oidc.IDTokenClaims], state string, _ rp.RelyingParty) {
-		c := appCall{State: state}
+		c := appCall{Req: r.Header.Get(reqHeader), State: state}
 		if tokens != nil {
 			c.HasClaims = tokens.IDTokenClaims != nil
 			if tokens.Token != nil {
 				c.Access = tokens.AccessToken
 			}
 		}
+		w.mu.Lock()
 		w.app = append(w.app, c)
+		w.mu.Unlock()
 		rw.WriteHeader(200)
 		fmt.Fprint(rw, "logged in")
 	}
+	w.cb, w.authP, w.exchP = cb, authP, exchP
 	pi = mon.Catch(func() {
 		w.loginH = rp.AuthURLHandler(stateFn, w.rp, authP...)
 		w.cbH = rp.CodeExchangeHandler(cb, w.rp, exchP...)
@@ -255,10 +272,16 @@ func (w *world) login(state, cookieHeader string) (*loginRec, *mon.PanicInfo) {
 	}
 	rec := httptest.NewRecorder()
 	pi := mon.Catch(func() { w.loginH.ServeHTTP(rec, req) })
+	lr := w.loginFromRecorder(rec, state, pi != nil)
+	return lr, pi
+}
+
+// loginFromRecorder turns the recorded answer of AuthURLHandler into a loginRec.
+func (w *world) loginFromRecorder(rec *httptest.ResponseRecorder, state string, panicked bool) *loginRec {
 	lr := &loginRec{N: w.nLogin, State: state, Status: rec.Code, Location: rec.Header().Get("Location"), SetCookie: rec.Header().Values("Set-Cookie")}
 	w.nLogin++
-	if pi != nil {
-		return lr, pi
+	if panicked {
+		return lr
 	}
 	lr.cookies = rec.Result().Cookies()
 	if rec.Code != http.StatusFound {
@@ -275,7 +298,7 @@ func (w *world) login(state, cookieHeader string) (*loginRec, *mon.PanicInfo) {
 	if u, err := url.Parse(lr.Location); err == nil {
 		lr.Challenge = u.Query().Get("code_challenge")
 	}
-	return lr, nil
+	return lr
 }
 
 func clip(s string, n int) string {
